@@ -96,7 +96,9 @@ class Space(Counter, OrderedDict):
         return "%s(%r)" % (self.__class__.__name__, dict(OrderedDict(self)))
 
     def __reduce__(self):
-        return self.__class__, (OrderedDict(self),)
+        # always rebuilt as a plain Space: the subclasses R1, R2, ... take a
+        # variable name, not the dictionary
+        return Space, (OrderedDict(self),)
 
     def check_values_in_space(self, values):
         """Checks if a given tensor is valid to belong to this space.
